@@ -32,6 +32,9 @@ class DistinguisherMixin(abc.ABC):
         if not isinstance(data, _np.ndarray):
             raise TypeError(f'data must be numpy ndarray, not {type(data)}.')
 
+        # ndarray subclasses (numpy.matrix) have their own reduction and broadcasting rules: work on plain array views of them
+        traces, data = _np.asarray(traces), _np.asarray(data)
+
         if traces.ndim != 2:
             raise ValueError(f'traces must be a 2 dimensions array (traces, samples), not a {traces.ndim} dimension(s) array.')
 
